@@ -19,7 +19,7 @@ import (
 func TestMain(m *testing.M) { hx.Main(m, "C07") }
 
 func TestSystemPredicate(t *testing.T) {
-	hx.Check(t, hx.N{Quick: 6000, Thorough: 30000}, func(t *rapid.T, c *hx.Case) {
+	hx.Check(t, hx.N{Quick: 36000, Thorough: 300000}, func(t *rapid.T, c *hx.Case) {
 		hx.Reset(hx.Epoch + uint64(rapid.IntRange(0, 999).Draw(t, "t0")))
 		nr := rapid.IntRange(0, 3).Draw(t, "nrules")
 		var rules []*system.Rule
